@@ -194,16 +194,19 @@ Section Derived.
     forall x d, assoc x s = Some d ->
       In (d_base d) BN /\ eq32 (lookup x e) (dval w e0 d (lookup (d_base d) e0)).
 
-  (* an invariant operand has the value it had at the head of the iteration *)
-  Definition inv_stable : Prop := forall v, ~ In v ninv -> ~ In v Bnd.
+  (* an operand that is outside the non-invariant set is not bound in the body (it comes from the scope in front
+     of the loop), so it has the value it had at the head of the iteration *)
+  Definition op_stable (a : expr) : Prop := forall v, a = EVar v -> ~ In v ninv -> ~ In v Bnd.
+  Definition ops_stable (rest : list stmt) : Prop :=
+    forall x op a b, In (SBin x op a b) rest -> op_stable a /\ op_stable b.
 
   Lemma get_inv_value e a p :
-    inv_stable -> unchanged e -> get_inv a ninv = Some p -> eval w e a = pv w e0 p.
+    op_stable a -> unchanged e -> get_inv a ninv = Some p -> eval w e a = pv w e0 p.
   Proof.
     intros Hs Hu. destruct a as [z| | |v]; cbn; try discriminate.
     - intros [= <-]. reflexivity.
     - destruct (memb v ninv) eqn:M; [discriminate|]. intros [= <-]. apply memb_false in M.
-      rewrite eval_var, pv_var. f_equal. apply Hu. now apply Hs.
+      rewrite eval_var, pv_var. f_equal. apply Hu. now apply (Hs v).
   Qed.
 
   Lemma dget_value s e a d :
@@ -215,7 +218,7 @@ Section Derived.
   Qed.
 
   Lemma try_merge_noswap_sound s e x op a b s' :
-    inv_stable -> unchanged e -> dset_ok s e -> is_plus_or_mul op = true ->
+    op_stable b -> unchanged e -> dset_ok s e -> is_plus_or_mul op = true ->
     try_merge_noswap s ninv x op a b = Some s' ->
     exists d, s' = (x, d) :: s /\ In (d_base d) BN /\
               eq32 (if is_plus op then eval w e a + eval w e b else eval w e a * eval w e b)
@@ -240,12 +243,12 @@ Section Derived.
   Qed.
 
   Lemma try_merge_sound s e x op a b v :
-    inv_stable -> unchanged e -> dset_ok s e ->
+    op_stable a -> op_stable b -> unchanged e -> dset_ok s e ->
     rt_binop op (eval w e a) (eval w e b) = Val v ->
     (forall y, In y (map fst s) -> y <> x) -> ~ In x Bnd \/ True ->
     dset_ok (try_merge s ninv x op a b) ((x, v) :: e).
   Proof.
-    intros Hst Hu Hok Hrt Hkeys _.
+    intros Hsta Hstb Hu Hok Hrt Hkeys _.
     assert (Hkeep : dset_ok s ((x, v) :: e)).
     { intros y d Hy. destruct (Hok y d Hy) as [Hb Hv]. split; [assumption|].
       rewrite lookup_cons_ne; [assumption|]. apply Hkeys. clear - Hy. induction s as [|[k u] r IH]; cbn in *; [discriminate|].
@@ -267,17 +270,17 @@ Section Derived.
     assert (Hv : eq32 v (if is_plus op then eval w e a + eval w e b else eval w e a * eval w e b)).
     { destruct op; cbn in Hpm; try discriminate; cbn in Hrt; injection Hrt as <-; cbn; apply eq32_wrap. }
     destruct (try_merge_noswap s ninv x op a b) as [s'|] eqn:E1.
-    - destruct (try_merge_noswap_sound _ _ _ _ _ _ _ Hst Hu Hok Hpm E1) as (d & -> & Hb & Hd).
+    - destruct (try_merge_noswap_sound _ _ _ _ _ _ _ Hstb Hu Hok Hpm E1) as (d & -> & Hb & Hd).
       apply Hadd; [assumption|]. etransitivity; eauto.
     - destruct (try_merge_noswap s ninv x op b a) as [s'|] eqn:E2; [|exact Hkeep].
-      destruct (try_merge_noswap_sound _ _ _ _ _ _ _ Hst Hu Hok Hpm E2) as (d & -> & Hb & Hd).
+      destruct (try_merge_noswap_sound _ _ _ _ _ _ _ Hsta Hu Hok Hpm E2) as (d & -> & Hb & Hd).
       apply Hadd; [assumption|]. etransitivity; [exact Hv|]. rewrite <- Hd.
       destruct (is_plus op); [rewrite Z.add_comm | rewrite Z.mul_comm]; reflexivity.
   Qed.
 
   (* the walk over the top-level statements of the rest of the body *)
   Lemma dset_run_sound rest : forall s e tr e1 t,
-    inv_stable -> unchanged e -> dset_ok s e ->
+    ops_stable rest -> unchanged e -> dset_ok s e ->
     NoDup (binders_l rest) ->
     (forall y, In y (binders_l rest) -> In y Bnd) ->
     (forall y, In y (map fst s) -> ~ In y (binders_l rest)) ->
@@ -294,6 +297,7 @@ Section Derived.
       assert (Hu' : unchanged e').
       { intros y Hy. rewrite Hfr; [now apply Hu|]. intros Hb. apply Hy, Hsub, in_or_app. now left. }
       unfold dset_run. cbn [fold_left]. fold (dset_run (match st with SBin x op a b => try_merge s ninv x op a b | _ => s end) r ninv).
+      assert (Hstr : ops_stable r) by (intros x0 op0 a0 b0 Hi0; apply (Hst x0 op0 a0 b0); now right).
       assert (Hgen : forall s', (forall y, In y (map fst s') -> In y (map fst s) \/ In y (binders st)) ->
                      dset_ok s' e' -> dset_ok (dset_run s' r ninv) e1 /\ unchanged e1).
       { intros s' Hk' Hok'. eapply IH; eauto. intros y Hy Hb. destruct (Hk' y Hy) as [Hs|Hs].
@@ -321,7 +325,7 @@ Section Derived.
         * destruct (is_plus_or_mul op); [|now left].
           destruct (try_merge_noswap s ninv x op b a) as [s2|] eqn:E2; [|now left].
           rewrite (Hns _ _ _ E2) in Hy. cbn in Hy. destruct Hy as [<-|Hy]; [right; now left | now left].
-      + apply try_merge_sound; auto. intros y Hy ->. apply (Hkeys x Hy). apply in_or_app. left. now left.
+      + destruct (Hst x op a b (or_introl eq_refl)) as [Hsa Hsb]. apply try_merge_sound; auto. intros y Hy ->. apply (Hkeys x Hy). apply in_or_app. left. now left.
   Qed.
 End Derived.
 
@@ -366,7 +370,7 @@ Qed.
 Theorem derived_sound m w fuel ninv bs rest e0 tr e1 t :
   NoDup (binders_l rest) ->
   (forall b, In b bs -> ~ In (gc_name b) (binders_l rest)) ->
-  (forall v, ~ In v ninv -> ~ In v (binders_l rest)) ->
+  ops_stable ninv (binders_l rest) rest ->
   exec_block m w fuel rest e0 tr = RNext e1 t ->
   forall d, In d (extract_derived bs rest ninv) ->
     In (dn_base d) (map gc_name bs) /\
